@@ -427,7 +427,7 @@ func (w *workspace) writeXLSXBook(subdir string, b bookSpec, numeric bool) {
 					continue
 				}
 				axis, _ := excelize.CoordinatesToCellName(ci+1, ri+1)
-				if numeric && ri >= 3 && sheet != "@TABLEAU" {
+				if numeric && ri >= 3 && sheet != b.metaName() {
 					if n, err := strconv.ParseInt(cell, 10, 64); err == nil && strconv.FormatInt(n, 10) == cell && n > -(1<<50) && n < (1<<50) {
 						f.SetCellInt(sheet, axis, int(n))
 						continue
@@ -451,7 +451,7 @@ func (w *workspace) writeXLSXBook(subdir string, b bookSpec, numeric bool) {
 		put(s.Name, s.Rows)
 	}
 	if !b.NoMeta {
-		put("@TABLEAU", metasheetRows(b))
+		put(b.metaName(), metasheetRows(b))
 	}
 	if err := f.SaveAs(filepath.Join(dir, b.Name+".xlsx")); err != nil {
 		panic(err)
